@@ -92,3 +92,43 @@ func gateFacts(p *Pkg) []CloseSite {
 	}
 	return out
 }
+
+// InitCheckSite: one call of checkInitialMessage — in which function, and whether it can run more than once there
+// (inside a `for` / `range` loop or a function literal)
+type InitCheckSite struct {
+	Func   string `json:"func"`
+	InLoop bool   `json:"inLoop"`
+}
+
+// initCheckFacts (C08): the first message of a connection is read and judged exactly once: every call site of
+// checkInitialMessage in package llrp
+func initCheckFacts(p *Pkg) []InitCheckSite {
+	out := []InitCheckSite{}
+	for _, fd := range p.funcs() {
+		if fd.Body == nil || strings.HasSuffix(p.fset.Position(fd.Pos()).Filename, "_test.go") {
+			continue
+		}
+		var stack []ast.Node
+		ast.Inspect(fd.Body, func(n ast.Node) bool {
+			if n == nil {
+				stack = stack[:len(stack)-1]
+				return true
+			}
+			stack = append(stack, n)
+			c, ok := n.(*ast.CallExpr)
+			if !ok || !strings.HasSuffix(types.ExprString(c.Fun), ".checkInitialMessage") {
+				return true
+			}
+			s := InitCheckSite{Func: funcName(fd)}
+			for _, e := range stack {
+				switch e.(type) {
+				case *ast.ForStmt, *ast.RangeStmt, *ast.FuncLit:
+					s.InLoop = true
+				}
+			}
+			out = append(out, s)
+			return true
+		})
+	}
+	return out
+}
